@@ -175,11 +175,11 @@ Lemma wrapper_close_inv s :
   s_bits (wrapper_close s) = None /\ s_pos (wrapper_close s) = 0.
 Proof.
   intros HR. pose proof HR as [S0 I0 NL RL B ND X NDP HL HRg P O D].
-  unfold wrapper_close, hq_remove_all. cbn [s_hq ht_clear set_delay set_errno set_pos set_out].
+  unfold wrapper_close, hq_remove_all. cbn [s_hq ht_clear set_delay set_errno set_pos set_out set_retry].
   destruct (fold_cleared_close (s_hq s) (set_hq (ht_clear s) [])) as (nd' & Heq & Hnf' & Hl1); simpl; auto.
   { apply invR_nodes_for. assumption. }
   { intros i Hi. specialize (HL i Hi). lia. }
-  unfold ht_clear in *. rewrite Heq. cbn [s_open set_nodes set_hq set_delay set_errno set_pos set_out set_mem].
+  unfold ht_clear in *. rewrite Heq. cbn [s_open set_nodes set_hq set_delay set_errno set_pos set_out set_mem set_retry].
   simpl in Hl1.
   destruct (s_open s) eqn:Hop.
   - cbn [s_nodes set_bits set_files set_open set_nodes set_mem]. rewrite (existsb_busy_free nd' Hnf').
